@@ -77,6 +77,8 @@ struct IoStats
 	uint64_t eintr_absorbed = 0, short_loops = 0 ;
 } ;
 
+extern "C" void simos_poison_stack (int fill) ;
+
 struct SimOS
 {	// namespace + descriptors
 	std::map<std::string, SimFileP> ns ;
@@ -90,6 +92,9 @@ struct SimOS
 	void pt_sync_out () ;
 	void pt_sync_in () ;
 	void pt_wipe () ;
+	// initial-memory differential: what fresh heap blocks and the unused stack hold when a library call starts (-1 = leave alone).
+	// Results must not depend on it; two executions of one plan with different values expose reads of uninitialised memory.
+	int mem_fill = -1 ;
 	bool fd_zero = false ;			// plan option: descriptor number 0 is free (stdin closed) and is handed out first
 	// clock
 	int64_t epoch0 = 1700000000 ;
